@@ -770,6 +770,23 @@ private:
         std::memset(static_cast<void *>(start), 0, count * sizeof(value_type));
     }
 
+    // Zero-fills the slots of [start_idx, end_idx) that lie in segments which are already allocated.
+    // Used when an allocation fails after the range has been claimed: the slots are counted by size(),
+    // so they must be in the documented zero-filled state rather than hold raw memory.
+    void zero_unconstructed_range( size_type start_idx, size_type end_idx ) {
+        if (start_idx >= end_idx) return;
+        segment_table_type table = this->get_table();
+        // The table may still be the embedded one if its extension is what failed
+        segment_index_type table_size = table == this->my_embedded_table ? this->pointers_per_embedded_table : this->pointers_per_long_table;
+        for (segment_index_type seg = this->segment_index_of(start_idx); seg <= this->segment_index_of(end_idx - 1) && seg < table_size; ++seg) {
+            if (table[seg].load(std::memory_order_relaxed) > this->segment_allocation_failure_tag) {
+                size_type first = this->segment_base(seg) > start_idx ? this->segment_base(seg) : start_idx;
+                size_type last = this->segment_base(seg) + this->segment_size(seg) < end_idx ? this->segment_base(seg) + this->segment_size(seg) : end_idx;
+                zero_unconstructed_elements(&this->internal_subscript(first), last - first);
+            }
+        }
+    }
+
     template <typename... Args>
     iterator internal_emplace_back( Args&&... args ) {
         size_type old_size = this->my_size++;
@@ -791,9 +808,9 @@ private:
     void internal_loop_construct( segment_table_type table, size_type start_idx, size_type end_idx, const Args&... args ) {
         static_assert(sizeof...(Args) < 2, "Too many parameters");
         for (size_type idx = start_idx; idx < end_idx; ++idx) {
-            auto element_address = &base_type::template internal_subscript</*allow_out_of_range_access=*/true>(idx);
             // try_call API is not convenient here due to broken
             // variadic capture on GCC 4.8.5
+            // The guard must already exist when the element address is computed: that may allocate a segment and throw
             auto value_guard = make_raii_guard( [&] {
                 segment_index_type last_allocated_segment = this->find_last_allocated_segment(table);
                 size_type segment_size = this->segment_size(last_allocated_segment);
@@ -805,6 +822,7 @@ private:
                     }
                 }
             });
+            auto element_address = &base_type::template internal_subscript</*allow_out_of_range_access=*/true>(idx);
             segment_table_allocator_traits::construct(base_type::get_allocator(), element_address, args...);
             value_guard.dismiss();
         }
@@ -813,8 +831,9 @@ private:
     template <typename ForwardIterator>
     void internal_loop_construct( segment_table_type table, size_type start_idx, size_type end_idx, ForwardIterator first, ForwardIterator ) {
         for (size_type idx = start_idx; idx < end_idx; ++idx) {
-            auto element_address = &base_type::template internal_subscript</*allow_out_of_range_access=*/true>(idx);
             try_call( [&] {
+                // The element address is computed inside the guarded call: that may allocate a segment and throw
+                auto element_address = &base_type::template internal_subscript</*allow_out_of_range_access=*/true>(idx);
                 segment_table_allocator_traits::construct(base_type::get_allocator(), element_address, *first++);
             } ).on_exception( [&] {
                 segment_index_type last_allocated_segment = this->find_last_allocated_segment(table);
@@ -832,22 +851,29 @@ private:
 
     template <typename... Args>
     iterator internal_grow( size_type start_idx, size_type end_idx, const Args&... args ) {
-        size_type seg_index = this->segment_index_of(end_idx - 1);
-        this->assign_first_block_if_necessary(seg_index + 1);
-        segment_table_type table = this->get_table();
-        this->extend_table_if_necessary(table, start_idx, end_idx);
+        segment_table_type table = nullptr;
+        // The range is already claimed (my_size covers it). If one of the allocations below throws, nothing of it
+        // has been constructed yet; the slots that lie in segments allocated earlier must not be left as raw memory.
+        try_call( [&] {
+            size_type seg_index = this->segment_index_of(end_idx - 1);
+            this->assign_first_block_if_necessary(seg_index + 1);
+            table = this->get_table();
+            this->extend_table_if_necessary(table, start_idx, end_idx);
 
-        if (seg_index > this->my_first_block.load(std::memory_order_relaxed)) {
-            // So that other threads be able to work with the last segment of grow_by, allocate it immediately.
-            // If the last segment is not less than the first block
-            if (table[seg_index].load(std::memory_order_relaxed) == nullptr) {
-                size_type first_element = this->segment_base(seg_index);
-                if (first_element >= start_idx && first_element < end_idx) {
-                    segment_type segment = table[seg_index].load(std::memory_order_relaxed);
-                    base_type::enable_segment(segment, table, seg_index, first_element);
+            if (seg_index > this->my_first_block.load(std::memory_order_relaxed)) {
+                // So that other threads be able to work with the last segment of grow_by, allocate it immediately.
+                // If the last segment is not less than the first block
+                if (table[seg_index].load(std::memory_order_relaxed) == nullptr) {
+                    size_type first_element = this->segment_base(seg_index);
+                    if (first_element >= start_idx && first_element < end_idx) {
+                        segment_type segment = table[seg_index].load(std::memory_order_relaxed);
+                        base_type::enable_segment(segment, table, seg_index, first_element);
+                    }
                 }
             }
-        }
+        } ).on_exception( [&] {
+            zero_unconstructed_range(start_idx, end_idx);
+        });
 
         internal_loop_construct(table, start_idx, end_idx, args...);
 
